@@ -291,7 +291,7 @@ def ladder_designs():
             L = h.ExternalModule(name="LdL", port_list=[h.Inout(name="a"), h.Inout(name="b")], desc="", domain="adv")
             m = h.Module(name="Ladder")
             m.v = h.Signal()
-            base = {"bundle": "bb_x", "array": "arr_0", "pair": "pr_p", "portref": "i0_a", "noconn": "i1_b"}[rule]
+            base = {"bundle": "bb_x", "array": "arr_0", "array-of-one": "arr_0", "pair": "pr_p", "portref": "i0_a", "noconn": "i1_b"}[rule]
             for k in order:
                 nm = base + "_" * k
                 if k >= rungs:
@@ -313,6 +313,9 @@ def ladder_designs():
             elif rule == "array":
                 m.w2 = h.Signal(width=2)
                 m.arr = 2 * L()(a=m.w2, b=m.v)
+            elif rule == "array-of-one":
+                m.w1 = h.Signal()
+                m.arr = 1 * L()(a=m.w1, b=m.v)
             elif rule == "pair":
                 m.d = h.Diff()
                 m.pr = h.Pair(L())(a=m.d, b=m.v)
@@ -323,9 +326,9 @@ def ladder_designs():
                 m.i1 = L()(a=m.v, b=h.NoConn())
             return m
         return b
-    for rule in ("bundle", "array", "pair", "portref", "noconn"):
+    for rule in ("bundle", "array", "array-of-one", "pair", "portref", "noconn"):
         for what in ("instance", "unused-signal", "used-signal", "port"):
-            for rungs in (2, 3):
+            for rungs in (1, 2, 3) if rule == "array-of-one" else (2, 3):
                 for order in it.permutations(range(rungs)):
                     yield (f"adv/ladder/{rule}/{what}/{'-'.join(map(str, order))}", mk(rule, order, what, rungs))
 
